@@ -1065,6 +1065,46 @@ fn compress_stream(cx: &mut Ctx, data: &[u8], rng: &mut Rng) -> Option<Vec<u8>> 
 
 fn run_project(cx: &mut Ctx, rng: &mut Rng) {
     let p = gen_project(rng);
+    run_project_spec(cx, &p, "project", rng);
+}
+
+/// regression projects: names and module text that *begin with the bytes of a byte-order mark* in the project's
+/// code page (0xFF 0xFE = "яю" in 1251, 0xEF 0xBB 0xBF = "ï»¿" in 1252): they are ordinary text of that code page
+fn corpus_projects() -> Vec<(&'static str, ProjSpec)> {
+    let s = |b: &[u8], t: &str| (b.to_vec(), t.to_string());
+    let module = |name: (Vec<u8>, String), text: (Vec<u8>, String)| ModSpec {
+        name: name.clone(),
+        stream: name,
+        offset: 5,
+        text,
+        private: false,
+        readonly: false,
+        doc: false,
+    };
+    vec![
+        (
+            "bom-lookalike-1251",
+            ProjSpec {
+                cp: 1251,
+                compat: false,
+                refs: vec![RefSpec { name: s(&[0xFF, 0xFE, 0x42], "яюB"), kind: 0, desc: s(b"d", "d"), path: s(b"C:\\p", "C:\\p") }],
+                mods: vec![module(s(&[0xFF, 0xFE, 0x4D], "яюM"), s(&[0xFF, 0xFE, 0x20, 0x78, 0x20, 0x78], "яю x x"))],
+            },
+        ),
+        (
+            "bom-lookalike-1252",
+            ProjSpec {
+                cp: 1252,
+                compat: true,
+                refs: vec![RefSpec { name: s(&[0xEF, 0xBB, 0xBF, 0x42], "ï»¿B"), kind: 0, desc: s(b"d", "d"), path: s(b"C:\\p", "C:\\p") }],
+                mods: vec![module(s(b"M1", "M1"), s(&[0xEF, 0xBB, 0xBF, 0x41, 0xE9], "ï»¿Aé"))],
+            },
+        ),
+    ]
+}
+
+fn run_project_spec(cx: &mut Ctx, p: &ProjSpec, label: &str, rng: &mut Rng) {
+    let p: &ProjSpec = p;
     let (dir, dir_wire) = build_dir(&p, rng);
     // the Lean spec encoder (the bytes `dir_walk` is about) must lay the same project out as the same bytes
     let lean_dir = cx.drv.ask(&format!("dirser {dir_wire}"));
@@ -1146,20 +1186,20 @@ fn run_project(cx: &mut Ctx, rng: &mut Rng) {
     };
     let reply = cx.drv.ask(&format!("proj {} {}", hex(&dirc), if model_streams.is_empty() { "-".to_string() } else { model_streams.join(";") }));
     let model = canon_model_project(&reply).unwrap_or_else(|e| e);
-    let input = format!("project cp={} mods={} refs={} file={}", p.cp, p.mods.len(), p.refs.len(), hex(&file));
-    cx.rep.case(&format!("project cp={} mods={} refs={} size={}", p.cp, p.mods.len(), p.refs.len(), file.len()), true);
+    let input = format!("{label} cp={} mods={} refs={} file={}", p.cp, p.mods.len(), p.refs.len(), hex(&file));
+    cx.rep.case(&format!("{label} cp={} mods={} refs={} size={}", p.cp, p.mods.len(), p.refs.len(), file.len()), true);
     if imp != model {
-        cx.rep.fail("impl_vs_model", "project", &input, &imp, &model, &expect_proj);
+        cx.rep.fail("impl_vs_model", label, &input, &imp, &model, &expect_proj);
     }
     if imp != expect_proj {
-        cx.rep.fail("impl_vs_spec", "project", &input, &imp, &model, &expect_proj);
+        cx.rep.fail("impl_vs_spec", label, &input, &imp, &model, &expect_proj);
     }
     // the same project embedded in a workbook and read through `Reader::vba_project`
     let kind = *rng.pick(&["xlsm", "xlsb", "xls"]);
     let seen = through_reader(kind, &file, &streams, rng);
     cx.rep.count(&format!("project:through-reader:{kind}"));
     if seen != expect_proj {
-        cx.rep.fail("impl_vs_spec", &format!("project-through-{kind}"), &input, &seen, &model, &expect_proj);
+        cx.rep.fail("impl_vs_spec", &format!("{label}-through-{kind}"), &input, &seen, &model, &expect_proj);
     }
 }
 
@@ -1418,7 +1458,7 @@ fn main() {
     let args = Args::parse();
     let mut rep = Report::new(
         "C18",
-        "containers: a case is non-trivial when it has a copy token or more than one chunk; sources 0..5 chunks (low/high redundancy, runs, phrases, VBA text) x tokenisers {literal, greedy, random valid, raw, mixed}; non-final chunks are forced onto a flag-group boundary in >= 1/4 of all cases; every container is serialized by the Lean spec encoder. Restrictions: module/stream/reference names are unique, non-empty, <= 31 UTF-16 units, from code pages 1252/1251/932/65001 (characters from tables in the harness), never a bare byte-order mark; project layouts come from cfbw (a compound-file read-back mismatch is counted and left to C13).",
+        "containers: a case is non-trivial when it has a copy token or more than one chunk; sources 0..5 chunks (low/high redundancy, runs, phrases, VBA text) x tokenisers {literal, greedy, random valid, raw, mixed}; non-final chunks are forced onto a flag-group boundary in >= 1/4 of all cases; every container is serialized by the Lean spec encoder. Restrictions: module/stream/reference names are unique, non-empty, <= 31 UTF-16 units, from code pages 1252/1251/932/65001 (characters from tables in the harness; names may begin with bytes that look like a byte-order mark, see the corpus); project layouts come from cfbw (a compound-file read-back mismatch is counted and left to C13).",
     );
     rep.notes.push("encoding_rs / codepage (text decoding by code page), zip (fixture extraction) and the compound-file reader (C13) are exercised, not modelled".into());
     let mut drv = Driver::spawn(&args.driver);
@@ -1456,6 +1496,10 @@ fn main() {
                 for (name, bin) in fixture_projects() {
                     run_fixture(&mut cx, &name, &bin);
                 }
+                let mut crng = Rng::new(7);
+                for (name, p) in corpus_projects() {
+                    run_project_spec(&mut cx, &p, &format!("project-corpus:{name}"), &mut crng);
+                }
             }
         }
         rep.write(&args.out);
@@ -1492,6 +1536,10 @@ fn main() {
         }
         for (name, bin) in fixture_projects() {
             run_fixture(&mut cx, &name, &bin);
+        }
+        let mut crng = Rng::new(7);
+        for (name, p) in corpus_projects() {
+            run_project_spec(&mut cx, &p, &format!("project-corpus:{name}"), &mut crng);
         }
         // fixed not-well-formed containers (outcome impl = model): output beyond 4096 bytes in one chunk (13-bit
         // offsets), a chunk of 8 tokens followed by one stray byte (was read as a flag byte before the D16 fix),
